@@ -70,6 +70,12 @@ bool run_call(Ctx& k, const MT& a, MK_R mkr, MK_X mkx, MK_Y mky, const std::stri
     got = read_pod(vr, k.ad, exact); gotd = read_real(vr, k.ad);
     bool e2 = true; ysnap = read_pod(vy, 1, e2);
     if(ysnap != k.y) return k.fail(tag + ": operand y modified: " + vs(ysnap));
+    // the result is the caller's own vector: overwriting it afterwards must not reach the operands
+    // (a result that was made to share the memory of y would modify y now)
+    vr.format(DT(77));
+    bool e4 = true;
+    if(read_pod(vy, 1, e4) != k.y) return k.fail(tag + ": operand y modified by overwriting the result afterwards (result shares memory with y)");
+    if(read_pod(vx, 1, e4) != k.x) return k.fail(tag + ": operand x modified by overwriting the result afterwards (result shares memory with x)");
   }
   bool e3 = true; IVec xs = read_pod(vx, 1, e3);
   if(xs != k.x) return k.fail(tag + ": operand x modified: " + vs(xs));
